@@ -21,8 +21,9 @@ TRUSTED = ["POSIX/library contracts: tempfile.mkdtemp(dir=d) creates a fresh pro
            "truncate/tofile affect only the opened path; shutil.copymode changes no content; os.replace(s, d) atomically gives d the "
            "content of s and removes s; os.remove/os.rmdir delete only their argument; dirname(join(a, basename(p))) == a",
            "kernel behaviour (rename atomicity, ENOSPC) is the trusted POSIX contract; no process is killed here"]
-NOT_DECIDED = ["sharded path (_write_external_tensors / _check_no_existing_shard_files) and unload_from_model ordering: bounded stand-in "
-               "with injected faults"]
+NOT_DECIDED = ["sharded path: that _check_no_existing_shard_files dominates every use of the writer is proved (dominance obligations on "
+               "_write_external_tensors); that the checked paths are exactly the files written, and the unload_from_model ordering: bounded "
+               "stand-in with injected faults and pre-existing files"]
 BOUNDED = [{"name": "C08 faults injected at every file-system effect of a single-file and a sharded save (bounded, not a proof)",
             "script": "bounded_extdata.py", "args": ["--prop", "C08"]}]
 
@@ -168,3 +169,56 @@ def build(eng, tier):
 def eng_map(eng, vty):
     from pyvc.types import TMap
     return TMap(STR, vty, ordered=False)
+
+
+_build_single = build
+
+
+def build(eng, tier):
+    _build_single(eng, tier)
+    add_sharded_preflight_target(eng)
+
+
+def add_sharded_preflight_target(eng):
+    """`A sharded save never changes a pre-existing file`: in _write_external_tensors every use of the writer
+    (convert_tensors_to_external, called directly or handed to an executor) on a path where max_shard_size_bytes is given
+    is dominated by _check_no_existing_shard_files(...) - a dominance obligation at each use site."""
+    from pyvc.types import VFunc
+
+    def preflight(e, p, args, kwargs, node):
+        p.ghost["$preflight"] = True
+        return [(p, VNone()), (p.copy(), Exc("FileExistsError", f"L{node.lineno}:_check_no_existing_shard_files"))]
+
+    def use_writer(e, p, node, how):
+        lim = p.frame.lookup("max_shard_size_bytes")
+        from pyvc.types import VOpt
+        single = lim.isnone if isinstance(lim, VOpt) else z3.BoolVal(isinstance(lim, VNone))
+        e.oblige(p, z3.Or(single, z3.BoolVal(bool(p.ghost.get("$preflight")))), "dominance",
+                 f"L{node.lineno}:{how} of convert_tensors_to_external in a sharded save is preceded by _check_no_existing_shard_files")
+
+    def writer(e, p, args, kwargs, node):
+        use_writer(e, p, node, "call")
+        return [(p, VOpaque("external tensors")), (p.copy(), Exc("AnyException", f"L{node.lineno}:convert_tensors_to_external"))]
+    WRITER = VFunc("py", writer, "convert_tensors_to_external")
+
+    def setup(e, p, env):
+        e.global_overrides = dict(e.global_overrides)
+        e.global_overrides[(ED, "convert_tensors_to_external")] = WRITER
+        e.global_overrides[(ED, "_check_no_existing_shard_files")] = VFunc("py", preflight, "_check_no_existing_shard_files")
+        for name in ("_shard_tensors", "_create_tensor_write_locks", "_make_shard_callback", "_ByteBudget"):
+            e.global_overrides[(ED, name)] = VOpaque("lib:" + name)
+        orig = e.call_opaque
+
+        def call_opaque(p2, f, args, kwargs, node):
+            if any(a is WRITER for a in list(args) + list(kwargs.values())):
+                use_writer(e, p2, node, "hand-over (executor.submit)")
+            return orig(p2, f, args, kwargs, node)
+        e.call_opaque = call_opaque
+    t = Target("_write_external_tensors", mod=ED, qual="_write_external_tensors",
+               params=dict(tensors=TSeq(TRef("TensorLike")), base_dir=STR, relative_path=STR, callback=TRef("Callback"), max_workers=TOpt(INT),
+                           max_in_flight_bytes=INT, max_shard_size_bytes=TOpt(INT), alignment=TOpt(INT), align_threshold=INT),
+               requires=[], ensures=[], setup=setup,
+               # the callback wrapper runs on the executor's threads (lock discipline: C09), never in this function itself
+               dead=["def _locked_callback"],
+               raises_default=[], assert_mode="raise")
+    eng.add_target(t)
